@@ -73,6 +73,7 @@ def _case(draw, held=False):
                   st.integers(0, 2)).map(list),
         st.tuples(st.just('tgt'), t).map(list),
         st.just(['reopen']),
+        st.tuples(st.just('rmshared'), st.integers(0, 7)).map(list),
         # a dataset that is kept and loaded again later (slot 0..1)
         st.tuples(st.just('hold'), t, run, a, st.integers(0, 1)).map(list),
         st.tuples(st.just('hload'), st.integers(0, 1)).map(list),
@@ -128,9 +129,42 @@ def execute(case):
     reopened = False
     held = {}
     try:
-        for op in case['ops']:
+        todo = list(case['ops'])
+        while todo:
+            op = todo.pop(0)
             kind = op[0]
             where = str(op)
+            if kind == 'rmshared':
+                # two entries hold identical content (one blob): one of them
+                # is removed, the other must still come back intact
+                groups = {}
+                for key, (_c, blob) in s.model.items():
+                    groups.setdefault(blob, []).append(key)
+                pairs = []
+                for g in groups.values():
+                    for k1 in sorted(g):
+                        for k2 in sorted(g):
+                            if k1[:2] != k2[:2]:
+                                pairs.append((k1, k2))
+                cur = {s.ident(i, j, k): (i, j, k)
+                       for i, a in enumerate(s.pool)
+                       for j, sv in enumerate(a['svs'])
+                       for k, _v in enumerate(sv['vals'])}
+                pairs = [p for p in pairs if p[1][2:] in cur
+                         and any(c[0] == p[0][2] and c[1] == p[0][3]
+                                 and c[3] == p[0][5] and c[5] == p[0][7]
+                                 for c in cur)]
+                if not pairs:
+                    continue
+                k1, k2 = pairs[op[1] % len(pairs)]
+                i1, j1, v1 = next(v for c, v in cur.items()
+                                  if (c[0], c[1], c[3], c[5]) == (
+                                      k1[2], k1[3], k1[5], k1[7]))
+                out.nontrivial = True
+                out.label('entry-removed-whose-content-another-entry-shares')
+                todo[:0] = [['rm', k1[0], k1[1], i1, j1, v1],
+                            ['load', k2[1], k2[0], cur[k2[2:]][0]]]
+                continue
             if kind == 'hupd':
                 h = held.get(op[1])
                 if h is None:
